@@ -304,6 +304,14 @@ def l3_case(args):
             argv += ["--read_group", "read_id:_"]
         elif mode == "read_id_multi":
             argv += ["--read_group", "read_id:_BC_"]
+        elif mode == "file4":
+            # four fields: READ_COL and GROUP_COL given, tab-separated (DELIM not set)
+            tbl = os.path.join(d, "table.tsv")
+            with open(tbl, "w") as f:
+                for name, g in groups.items():
+                    if g != "NA":
+                        f.write("%s\tbc%d\t%s\n" % (name, len(name), g))
+            argv += ["--read_group", "file:%s:0:2" % tbl]
         elif mode in ("file3", "file5"):
             # documented column options: file:FILE:READ_COL[:GROUP_COL[:DELIM]] (READ_COL 0, GROUP_COL 1, tab if not set)
             tbl = os.path.join(d, "table.tsv")
@@ -545,9 +553,9 @@ def run(ctx):
                           {"reads": list(reads), "order": list(order), "format": fmt})
     jobs = []
     universes = {"tag": ["A1", "gB", "gC", "NA"], "read_id": ["A1", "gB", "gC", "NA"], "read_id_multi": ["A1", "gB", "gC", "NA"], "file": ["A1", "gB", "gC", "NA"], "file_name": ["L1", "L2"],
-                 "tagint": ["12", "3", "7", "NA"], "file3": ["A1", "gB", "gC", "NA"], "file5": ["A1", "gB", "gC", "NA"],
+                 "tagint": ["12", "3", "7", "NA"], "file3": ["A1", "gB", "gC", "NA"], "file5": ["A1", "gB", "gC", "NA"], "file4": ["A1", "gB", "gC", "NA"],
                  "tagutf": ["NA"] + sorted(UTF_TAG.values())}
-    for mode in ("tag", "tagint", "tagutf", "read_id", "read_id_multi", "file", "file3", "file5", "file_name"):
+    for mode in ("tag", "tagint", "tagutf", "read_id", "read_id_multi", "file", "file3", "file4", "file5", "file_name"):
         for fmt in ("both",) if quick else ("matrix", "linear", "both"):
             orders = list(itertools.permutations(universes[mode]))
             if quick:
